@@ -19,7 +19,7 @@ import (
 // data hash is the submitted data's.  Oracle (no trace): a rejected receive
 // leaves the tibc and token stores byte-identical.
 
-var c01Muts = []string{scen.MutData, scen.MutSeq, scen.MutSrc, scen.MutDst, scen.MutTarget, scen.MutProver,
+var c01Muts = []string{scen.MutData, scen.MutDataEquiv, scen.MutDataEquiv, scen.MutSeq, scen.MutSrc, scen.MutDst, scen.MutTarget, scen.MutProver,
 	scen.MutProofBytes, scen.MutProofKey, scen.MutProofHeight, scen.MutSigner}
 
 func init() {
@@ -124,6 +124,7 @@ func runC01(c *core.Ctx, crashes bool) {
 	}
 	uni := scen.DefaultUniverse()
 	uni.UnknownDestPct = 8
+	uni.Amounts = append(uni.Amounts, 200, 300, 70000) // amounts whose encoding leaves ASCII
 	e.SeedTokens(uni, 2)
 
 	mutated := 0
